@@ -120,6 +120,62 @@ def run(ctx):
     if not rets or any(r.value is None for r in rets):
         ctx.violation("M3", blk, "returns-nothing", "the block reader has a path returning no data", node=blk.node)
 
+    # accumulated length + remaining request == announced size (affine invariant at loop entry)
+    inv = block_invariant(ctx, blk, size_param)
+    if inv is True:
+        ctx.holds("M3", "%s: on entry to the receive loop len(accumulator) + remaining == requested size on every path" % blk.qualname)
+    elif inv is None:
+        pass  # no loop: already reported as single-recv
+    else:
+        ctx.violation("M3", blk, "size-invariant", "the receive loop of the block reader does not read up to the announced size: %s" % inv,
+                      node=blk.node, witness="a literal whose first octets arrived with the previous line is returned short by that many octets")
+
+    # ---- M6 chunk uses ------------------------------------------------------------
+    ctx.rule("M6", "the bytes returned by recv are used only in segmentation-independent ways (append to buffer, len, emptiness, debug print as is)")
+    for rd in (blk, lin):
+        for c in R.recv_sites[rd.name]:
+            st = stmt_of(c)
+            if isinstance(st, ast.Assign) and isinstance(st.targets[0], ast.Name) and st.value is c:
+                cv = st.targets[0].id
+            elif isinstance(st, ast.AugAssign):
+                ctx.holds("M6", "%s: recv result appended directly (%s)" % (rd.qualname, norm(st)[:50]))
+                continue
+            else:
+                ctx.violation("M6", rd, "chunk-consumed-inline", "the result of recv is consumed inside %s" % norm(st)[:60], node=c)
+                continue
+            bad = []
+            for n_ in walk_no_nested(rd.node):
+                if isinstance(n_, ast.Name) and n_.id == cv and isinstance(n_.ctx, ast.Load):
+                    p_ = n_._parent
+                    ok = False
+                    if isinstance(p_, ast.AugAssign) and p_.value is n_ and isinstance(p_.op, ast.Add):
+                        ok = True
+                    elif isinstance(p_, ast.Call) and call_name(p_) == "len" and p_.args == [n_]:
+                        ok = True
+                    elif isinstance(p_, ast.Call) and isinstance(p_.func, ast.Attribute) and "print" in p_.func.attr and p_.args == [n_]:
+                        ok = True
+                    elif isinstance(p_, (ast.If, ast.While)) and p_.test is n_:
+                        ok = True
+                    elif isinstance(p_, ast.UnaryOp) and isinstance(p_.op, ast.Not):
+                        ok = True
+                    elif isinstance(p_, ast.BinOp) and isinstance(p_.op, ast.Add) and isinstance(p_._parent, (ast.Assign, ast.AugAssign)):
+                        ok = True  # buf = buf + chunk
+                    elif isinstance(p_, ast.Compare) and len(p_.comparators) == 1 and isinstance(p_.comparators[0], ast.Constant) \
+                            and p_.comparators[0].value in (b"", None):
+                        ok = True
+                    if not ok:
+                        bad.append(n_)
+            if bad:
+                b0 = bad[0]
+                q = b0._parent
+                while not isinstance(q, ast.stmt) and not isinstance(q, ast.Call):
+                    q = q._parent
+                ctx.violation("M6", rd, "chunk-dependent:%s" % norm(q)[:50], "a single recv chunk is processed on its own (%s): the outcome depends on "
+                              "where the transport cut the stream" % norm(q)[:70], node=b0,
+                              witness="a multi-byte character or a CRLF split across two segments makes the read fail or differ")
+            else:
+                ctx.holds("M6", "%s: chunk `%s` only appended / measured / tested for emptiness" % (rd.qualname, cv))
+
     # ---- M4 delimiter reader ---------------------------------------------------
     ctx.rule("M4", "line reader: recv inside a loop whose only normal exit is 'delimiter found'; returns the prefix, keeps the rest")
     cfgl = ctx.cfg(lin)
@@ -442,3 +498,121 @@ def offset_from(ctx, f, e, var):
                     return len(kv) if kv is not TOP else None
                 return k if k is not TOP else None
     return None
+
+
+# ---- affine invariant of the block reader ----------------------------------------------
+def _aff_add(a, b, k=1):
+    out = dict(a)
+    for s_, c in b.items():
+        out[s_] = out.get(s_, 0) + k * c
+    return {s_: c for s_, c in out.items() if c != 0}
+
+
+def _aff(expr, env):
+    """affine form of expr over symbols; opaque sub-expressions become symbols."""
+    if isinstance(expr, ast.Constant) and isinstance(expr.value, int) and not isinstance(expr.value, bool):
+        return {1: expr.value} if expr.value else {}
+    if isinstance(expr, ast.Constant) and isinstance(expr.value, (bytes, str)):
+        return None
+    if isinstance(expr, ast.Name):
+        return dict(env.get(expr.id, {expr.id: 1}))
+    if isinstance(expr, ast.Call) and call_name(expr) == "len" and len(expr.args) == 1:
+        k = "len(%s)" % norm(expr.args[0])
+        return dict(env.get(k, {k: 1}))
+    if isinstance(expr, ast.BinOp) and isinstance(expr.op, (ast.Add, ast.Sub)):
+        l, r = _aff(expr.left, env), _aff(expr.right, env)
+        if l is None or r is None:
+            return None
+        return _aff_add(l, r, 1 if isinstance(expr.op, ast.Add) else -1)
+    return {"<%s>" % norm(expr)[:30]: 1}
+
+
+def _run_prelude(stmts, env):
+    """abstractly execute straight-line statements (with if/else forks) -> list of envs"""
+    envs = [env]
+    for st in stmts:
+        nxt = []
+        for e in envs:
+            if isinstance(st, ast.Assign) and len(st.targets) == 1 and isinstance(st.targets[0], ast.Name):
+                e2 = dict(e)
+                v = st.value
+                name = st.targets[0].id
+                if isinstance(v, ast.Constant) and isinstance(v.value, (bytes, str)):
+                    e2["len(%s)" % name] = {1: len(v.value)} if v.value else {}
+                    e2[name] = {"<const>": 1}
+                elif isinstance(v, ast.Subscript) and isinstance(v.slice, ast.Slice) and v.slice.lower is None and v.slice.upper is not None:
+                    e2["len(%s)" % name] = _aff(v.slice.upper, e)  # prefix slice of length <upper> (when the source is long enough)
+                    e2[name] = {"<slice>": 1}
+                elif isinstance(v, ast.IfExp):
+                    e2[name] = {name: 1}  # opaque: a fresh symbol named after the variable
+                else:
+                    a = _aff(v, e)
+                    e2[name] = a if a is not None else {name: 1}
+                nxt.append(e2)
+            elif isinstance(st, ast.AugAssign) and isinstance(st.target, ast.Name) and isinstance(st.op, (ast.Add, ast.Sub)):
+                e2 = dict(e)
+                name = st.target.id
+                cur = e.get(name, {name: 1})
+                a = _aff(st.value, e)
+                if a is None:
+                    # bytes concatenation: buf += chunk
+                    k = "len(%s)" % name
+                    if isinstance(st.value, ast.Name):
+                        e2[k] = _aff_add(e.get(k, {k: 1}), e.get("len(%s)" % st.value.id, {"len(%s)" % st.value.id: 1}))
+                else:
+                    if "len(%s)" % name in e and isinstance(st.value, ast.Name) and st.value.id not in e:
+                        k = "len(%s)" % name
+                        e2[k] = _aff_add(e.get(k), {"len(%s)" % st.value.id: 1})
+                    else:
+                        e2[name] = _aff_add(cur, a, 1 if isinstance(st.op, ast.Add) else -1)
+                nxt.append(e2)
+            elif isinstance(st, ast.If):
+                nxt.extend(_run_prelude(st.body, dict(e)))
+                nxt.extend(_run_prelude(st.orelse, dict(e)) if st.orelse else [dict(e)])
+            else:
+                nxt.append(e)
+        envs = nxt
+    return envs
+
+
+def block_invariant(ctx, blk, size_param):
+    """True / None (no loop) / description of the broken invariant."""
+    loops = [lp for lp in blk.node.body if isinstance(lp, ast.While)]
+    if not loops:
+        inner = [lp for lp in walk_no_nested(blk.node) if isinstance(lp, ast.While)]
+        if not inner:
+            return None
+        return True  # loop nested in another construct: shape handled by the other M3 clauses only
+    lp = loops[0]
+    pre = blk.node.body[:blk.node.body.index(lp)]
+    N = {"N": 1}
+    envs = _run_prelude(pre, {size_param: dict(N)})
+    # the accumulator: the name returned
+    rets = [r.value for r in walk_no_nested(blk.node) if isinstance(r, ast.Return) and isinstance(r.value, ast.Name)]
+    if not rets:
+        return True
+    acc = rets[-1].id
+    t = lp.test
+    for e in envs:
+        la = e.get("len(%s)" % acc)
+        if la is None:
+            return True  # accumulator length unknown: no verdict from this clause
+        if isinstance(t, ast.Name) or (isinstance(t, ast.Compare) and isinstance(t.left, ast.Name) and len(t.ops) == 1
+                                        and isinstance(t.ops[0], (ast.Gt, ast.NotEq)) and isinstance(t.comparators[0], ast.Constant)
+                                        and t.comparators[0].value == 0):
+            rem = _aff(t if isinstance(t, ast.Name) else t.left, e)
+        elif isinstance(t, ast.Compare) and len(t.ops) == 1 and isinstance(t.ops[0], ast.Lt) and isinstance(t.left, ast.Call) \
+                and call_name(t.left) == "len" and norm(t.left.args[0]) == acc:
+            target = _aff(t.comparators[0], e)
+            if target is None:
+                return True
+            rem = _aff_add(target, la, -1)
+        else:
+            return True
+        total = _aff_add(la, rem)
+        if total != N:
+            def show(a):
+                return " + ".join("%s%s" % ("" if c == 1 else "%d*" % c, k if k != 1 else "") if k != 1 else str(c) for k, c in a.items()) or "0"
+            return "on a path into the loop, bytes already taken (%s) + bytes still requested (%s) = %s, not the announced size N" % (
+                show(la), show(rem), show(total))
+    return True
